@@ -11,6 +11,9 @@ CONSTANTS
   LineRuns <- TinyRuns
   CurveRuns <- TinyRuns
   FarJumps = TRUE
+  SweepOnly = FALSE
+  SweepA <- SweepAs
+  SweepB <- SweepBs
   Sim = FALSE
 INIT Init
 NEXT Next
